@@ -1401,8 +1401,13 @@ def external(P, full):
         return Builtin(full, lambda P_, a, k: SStr(ufn("cleandoc", StrS, StrS)(zstr(a[0]))) if is_sym(a[0]) else __import__("inspect").cleandoc(a[0]))
     if full == "textwrap.dedent":
         return Builtin(full, lambda P_, a, k: SStr(ufn("dedent", StrS, StrS)(zstr(a[0]))) if is_sym(a[0]) else __import__("textwrap").dedent(a[0]))
-    if full in ("ast", "re", "sys", "os", "json", "subprocess", "itertools", "contextlib", "inspect", "warnings", "shutil", "tempfile"):
+    if full in ("ast", "re", "sys", "os", "json", "subprocess", "itertools", "contextlib", "inspect", "warnings", "shutil", "tempfile",
+                "os.path", "pathlib", "unicodedata", "importlib", "functools", "collections", "typing"):
         return ModuleRef(full)
+    if full in ("subprocess.DEVNULL", "subprocess.PIPE", "subprocess.STDOUT"):
+        return Opaque("lenient:" + full)
+    if full in ("pathlib.Path", "pathlib.PurePath"):
+        return ClassRef("pathlib.Path")
     if full in ("datetime.datetime", "datetime.timezone", "datetime.timedelta"):
         return Opaque("lenient:" + full)
     if full.startswith("ast."):
@@ -1417,6 +1422,8 @@ def instantiate_builtin(P, c: ClassRef, args, kwargs):
         return SObj("contextlib.suppress", {"excs": tuple(args)})
     if c.name in BUILTINS and c.name in TYPE_NAMES:
         return BUILTINS[c.name](P, list(args), kwargs)
+    if c.name == "pathlib.Path":
+        return Opaque("lenient:path")
     if c.name == "collections.deque":
         s = P.to_seq(args[0]) if args else []
         if not isinstance(s, (list, tuple)):
